@@ -343,9 +343,16 @@ fn replica_session(ctx: &mut Ctx, r: &mut Rng, script: &mut Vec<Value>) -> Resul
                             }
                             let wm = w.model.clone();
                             if q.upgrade.is_some() {
-                                return Err(fail("scenario:stale-upgrade-accepted", "".to_string()));
+                                // an earlier genuine upgrade accepted again: the replica keeps the
+                                // length it has (the writer's at that time or later)
+                                ctx.count("ev:proof-accepted:stale-with-upgrade");
                             }
-                            rep.model_accept(&q, &wm);
+                            if let Some(b) = &q.block {
+                                if (b.index as usize) < rep.model.blocks.len() {
+                                    rep.model.blocks[b.index as usize] = Some(b.value.clone());
+                                }
+                            }
+                            let _ = wm;
                             ctx.count("ev:proof-accepted:stale");
                             mon.after("stale-proof-accepted", &Expect::Exactly(exp), &newly)?;
                         }
@@ -382,9 +389,8 @@ fn replica_session(ctx: &mut Ctx, r: &mut Rng, script: &mut Vec<Value>) -> Resul
                 (false, false) => "ev:proof-accepted:no-upgrade-no-block",
             });
             mon.after("proof-accepted", &Expect::Exactly(exp), &newly)?;
-            if p.block.is_some() && p.upgrade.is_none() {
-                stale.push(p.clone());
-            }
+            // later this proof is offered again (stale): block-only, upgrade-only, both
+            stale.push(p.clone());
             // reads on the replica
             let l = rep.model.length();
             for ix in [0, l / 2, l.saturating_sub(1), l + 1] {
